@@ -224,7 +224,8 @@ def eval_expr(I, st, env, e, frame):
         from .values import GenV
         return [(st, GenV(e, dict(env), frame))]
     if isinstance(e, ast.Lambda):
-        return [(st, FuncV(frame.mod, e))]
+        from .absint import closure_snapshot
+        return [(st, FuncV(frame.mod, e, closure_snapshot(e, env, frame) if env else None, frame.cls))]
     if isinstance(e, ast.Starred):
         return I.eval(st, env, e.value, frame)
     if isinstance(e, ast.Yield):
@@ -363,6 +364,8 @@ def seq_elements(I, st, v):
         return list(st.seqs[v.oid])
     if isinstance(v, IterV):
         return list(v.elems)
+    if isinstance(v, Str):
+        return [Str(ch) for ch in v.s]          # a literal string iterates over its characters
     if isinstance(v, (Opaque, SStr)):
         return [Star('elems(%s)' % v.tag)]
     if v is NONE:
